@@ -35,15 +35,21 @@ def check(R, cases, name):
     if len(obs) != len(inp):
         raise vlib.MachineryError("driver returned %d of %d" % (len(obs), len(inp)))
     bad = []
-    shard = 20000
-    for s in range(0, len(obs), shard):
+    shard = 10000
+
+    def one(s):
         part = obs[s:s + shard]
         path = R.path("obs", "%s-%d.ndjson" % (name, s))
         vlib.write_ndjson(path, part)
         res = R.tlc("StoreCheck", "INIT Init\nNEXT Next\nINVARIANT Chk\n", env={"VERIF_OBS": path}, workers=1, name="%s-check%d" % (name, s), timeout=3000)
         if res.distinct != len(part):
             raise vlib.MachineryError("StoreCheck visited %d of %d" % (res.distinct, len(part)))
-        bad += [(s + p[1] - 1, p[2]) for p in res.prints if p and p[0] == "MISMATCH"]
+        return [(s + p[1] - 1, p[2]) for p in res.prints if p and p[0] == "MISMATCH"]
+
+    import concurrent.futures
+    with concurrent.futures.ThreadPoolExecutor(max_workers=8) as ex:      # the shards are validated side by side (one TLC worker each)
+        for b in ex.map(one, range(0, len(obs), shard)):
+            bad += b
     exp = {i["id"]: c for i, c in zip(inp, cases)}
     for k, step in bad:
         o = obs[k]
@@ -66,8 +72,12 @@ def run(R):
     R.assumptions = ["the store starts empty (the driver unsets the imported environment)", "values without IFS characters; NoGlob set",
                      "$$ is compared as <pid>"]
     if R.tier == "quick":
-        cases = gen(R, 2, False, name="store2") + gen(R, 2, True, name="store2u")
-        cases += gen(R, 12, False, simulate=6, name="storesim") + gen(R, 12, True, simulate=4, name="storesimu")
+        # the four generator runs are independent: run them side by side
+        import concurrent.futures
+        jobs = [(2, False, None, "store2"), (2, True, None, "store2u"), (12, False, 3, "storesim"), (12, True, 2, "storesimu")]
+        with concurrent.futures.ThreadPoolExecutor(max_workers=4) as ex:
+            parts = list(ex.map(lambda j: gen(R, j[0], j[1], simulate=j[2], name=j[3]) if j[2] else gen(R, j[0], j[1], name=j[3]), jobs))
+        cases = [c for p in parts for c in p]
     else:
         cases = gen(R, 3, False, name="store3") + gen(R, 2, True, name="store2u")
         cases += gen(R, 16, False, simulate=120, name="storesim") + gen(R, 16, True, simulate=80, name="storesimu")
